@@ -105,7 +105,7 @@ namespace xtl
             {
                 // Don't use std::make_unsinged_t here, this should remain C++11 compatible
                 using unsigned_type = typename std::make_unsigned<T>::type;
-                return N - 1 - reinterpret_cast<unsigned_type const*>(m_buffer)[N - 1];
+                return N - 1 - static_cast<unsigned_type>(m_buffer[N - 1]);
             }
 
             void set_size(std::size_t sz)
@@ -113,7 +113,7 @@ namespace xtl
                 assert(sz < N && "setting a small size");
                 // Don't use std::make_unsinged_t here, this should remain C++11 compatible
                 using unsigned_type = typename std::make_unsigned<T>::type;
-                reinterpret_cast<unsigned_type*>(m_buffer)[N - 1] = static_cast<unsigned_type>(N - 1 - sz);
+                m_buffer[N - 1] = static_cast<T>(static_cast<unsigned_type>(N - 1 - sz));
                 m_buffer[sz] = '\0';
             }
 
